@@ -113,6 +113,7 @@ func c08Reposition(c *Ctx) {
 func runC08(c *Ctx) {
 	c08Reposition(c)
 	c08Position(c)
+	c08ErrExit(c)
 	// the cursors of the resettable readers are re-established by their Reset
 	ci := newChainIndex(c.P)
 	closeWhy := "Close ends the life of the reader; Reset is not expected to reopen it"
@@ -500,4 +501,102 @@ func c08Position(c *Ctx) {
 	c.Check(rule, "SeekToRow succeeds without moving the stream only after looking at its position", fn.Pos(), len(bad) == 0,
 		"FilePages.SeekToRow can return success ("+strings.Join(bad, ", ")+") without repositioning the stream and without a test on the stream position: when the page cursor and the stream disagree (a read failed half way through a page, an earlier seek moved the stream) the next ReadPage returns the rows of another page without error")
 	c.Min(rule, 2)
+}
+
+// c08ErrExit: a reader that assembles rows from several column readers
+// advances them one after the other. When one of them fails, those before it
+// have moved while the row index has not: an error exit taken after a column
+// was read must leave a trace in the reader (a flag, an invalidated index),
+// otherwise the next read or a seek to the row the reader believes it is at
+// goes on with columns standing on different rows (finding F34). Checked on
+// every ReadRows method that calls ReadValues on elements of a slice field of
+// its receiver: the block returning the error of that call stores into a
+// receiver field or calls a method of the receiver that does.
+func c08ErrExit(c *Ctx) {
+	rule := "C08.errexit"
+	p := c.P
+	n := 0
+	for _, fn := range p.ModuleSSAFuncs() {
+		if fn.Origin() != nil || fn.Blocks == nil || fn.Parent() != nil || fn.Name() != "ReadRows" || fn.Signature.Recv() == nil || fn.Pkg == nil || fn.Pkg.Pkg != p.Root.Types {
+			continue
+		}
+		recv := fn.Params[0]
+		own := fieldsOfStruct(namedOf(recv.Type()))
+		var calls []*ssa.Call
+		allCalls(fn, false, func(_ *ssa.Function, ci ssa.CallInstruction) {
+			call, ok := ci.(*ssa.Call)
+			if !ok {
+				return
+			}
+			cc := call.Common()
+			name := ""
+			var target ssa.Value
+			if cc.IsInvoke() {
+				name, target = cc.Method.Name(), cc.Value
+			} else if sc := cc.StaticCallee(); sc != nil && sc.Signature.Recv() != nil && len(cc.Args) > 0 {
+				name, target = fnName(sc), cc.Args[0]
+			}
+			if name != "ReadValues" || target == nil {
+				return
+			}
+			// the callee object is an element of a slice field of the receiver
+			fs, root, _ := fieldChainPhi(target)
+			if len(fs) == 0 || root != ssa.Value(recv) || !own[fs[0]] {
+				return
+			}
+			if _, isSlice := fs[0].Type().Underlying().(*types.Slice); !isSlice {
+				return
+			}
+			calls = append(calls, call)
+		})
+		for i, call := range calls {
+			n++
+			var errv ssa.Value
+			for _, r := range *call.Referrers() {
+				if ex, ok := r.(*ssa.Extract); ok && isErrorType(ex.Type()) {
+					errv = ex
+				}
+			}
+			key := FuncKey(fn) + ": error exit after a column was read leaves a trace #" + itoa(i)
+			if errv == nil {
+				c.Fail(rule, key, call.Pos(), "the error of ReadValues is discarded")
+				continue
+			}
+			var bad []string
+			found := 0
+			for _, ret := range returnsOf(fn) {
+				returnsIt := false
+				for k := range ret.Results {
+					rv, _ := retResult(ret, k)
+					if rv == errv {
+						returnsIt = true
+					}
+				}
+				if !returnsIt {
+					continue
+				}
+				found++
+				traced := false
+				for _, ins := range ret.Block().Instrs {
+					switch x := ins.(type) {
+					case *ssa.Store:
+						if fs, root, _ := fieldChain(x.Addr); len(fs) > 0 && root == ssa.Value(recv) && own[fs[0]] {
+							traced = true
+						}
+					case ssa.CallInstruction:
+						if sc := x.Common().StaticCallee(); sc != nil && sc.Signature.Recv() != nil && len(x.Common().Args) > 0 && x.Common().Args[0] == ssa.Value(recv) {
+							traced = true
+						}
+					}
+				}
+				if !traced {
+					bad = append(bad, p.Pos(ret.Pos()))
+				}
+			}
+			sort.Strings(bad)
+			c.Check(rule, key, call.Pos(), len(bad) == 0 && found > 0, FuncKey(fn)+" returns the error of a column read ("+strings.Join(bad, ", ")+") without recording that the columns read before it have advanced: the next read, or a seek to the row the reader believes it is at, returns rows assembled from different rows of the columns")
+		}
+	}
+	c.Stats[rule+".column_reads"] = n
+	c.Min(rule, 1)
 }
